@@ -702,8 +702,8 @@ def rule_r4(ctx) -> List[R.Inst]:
 def rule_r5(ctx) -> List[R.Inst]:
     M = ctx.M
     rid = "C06.R5"
-    rd = M.fn(QUAMAP + ".read")
-    wr = M.fn(QUAMAP + ".write")
+    rd = M.nfn(QUAMAP + ".read")       # (a loop over a literal (section, reader) table is unrolled: sa/normal.py)
+    wr = M.nfn(QUAMAP + ".write")
     file = M.mods[rd.mod].rel
     want = {"HitObjects": ("_read_notes", {"hits", "holds"}), "TimingPoints": ("_read_bpms", {"bpms"}),
             "SliderVelocities": ("_read_svs", {"svs"})}
@@ -722,6 +722,13 @@ def rule_r5(ctx) -> List[R.Inst]:
         if isinstance(n, ast.Assign) and isinstance(n.targets[0], ast.Subscript) and C.const_str(n.targets[0].slice):
             slots = {C.self_attr(x.func.value) for x in ast.walk(n.value) if isinstance(x, ast.Call) and call_name(x) == "to_yaml"}
             written[C.const_str(n.targets[0].slice)] = (slots, n)
+        # ... or as entries of the dict display the document is built as: {**meta, "TimingPoints": ..., ...}
+        if isinstance(n, ast.Dict):
+            for k_, v_ in zip(n.keys, n.values):
+                if k_ is not None and C.const_str(k_) is not None:
+                    slots = {C.self_attr(x.func.value) for x in ast.walk(v_) if isinstance(x, ast.Call) and call_name(x) == "to_yaml"}
+                    if slots:
+                        written.setdefault(C.const_str(k_), (slots, v_))
     insts = []
     for sec, (meth, slots) in want.items():
         key = f"section:{sec}"
